@@ -7,6 +7,7 @@ import (
 	"github.com/crate-crypto/go-ipa/bandersnatch/fr"
 	"github.com/crate-crypto/go-ipa/banderwagon"
 	"github.com/crate-crypto/go-ipa/ipa"
+	"github.com/crate-crypto/go-ipa/zzverif/vsched"
 	"verif.local/engine/core"
 	"verif.local/engine/ref"
 )
@@ -62,7 +63,17 @@ func c05Sweep(r *core.Result, c *ipa.IPAConfig, i int, k uint, vals []uint64) {
 			if cin == 1 || v >= half {
 				r.Nontrivial++
 			}
-			if msg := validSame(&got, want); msg != "" {
+			// full validity (curve equation) on every 16th digit and around the boundaries; class equality and Z != 0 always
+			var msg string
+			if v%16 == 0 || v < 4 || v+4 > maxV || (v >= half-2 && v <= half+2) {
+				msg = validSame(&got, want)
+			} else if p := elToRef(&got); p.Z.Sign() == 0 || !ref.SameClass(p, want) || (p.X.Sign() == 0 && p.Y.Sign() == 0) {
+				msg = validSame(&got, want)
+				if msg == "" {
+					msg = "invalid projective point: " + elString(&got)
+				}
+			}
+			if msg != "" {
 				vio(r, "c05.table", "ipa.IPAConfig.Commit", fmt.Sprintf("v[%d] = 0x%s (window %d of %d bits = 0x%x, carry-in %d)", i, sc.Text(16), k, w, v, cin), affStr(want), msg)
 			}
 		}
@@ -118,11 +129,34 @@ func c05Units(ctx *core.Ctx) []core.Unit {
 			vio(r, "c05.srs", "ipa.NewIPASettings", "Q", "the generator", msg)
 		}
 	}})
+	us = append(us, core.Unit{Name: "configuration rebuilt under CPU-count overrides", Run: func(ctx *core.Ctx, r *core.Result) {
+		if !vsched.Instrumented {
+			r.Note("seam", "unavailable (fallback flavour)")
+			return
+		}
+		needRef()
+		defer setCPU(0)
+		base := conf()
+		want := core.Fingerprint(base)
+		for _, k := range []int{1, 3, 5, 17} {
+			setCPU(k)
+			c2, err := ipa.NewIPASettings()
+			r.Evals++
+			r.Nontrivial++
+			if err != nil {
+				vio(r, "c05.srs", "ipa.NewIPASettings", fmt.Sprintf("NumCPU/GOMAXPROCS = %d", k), "a configuration", err.Error())
+				continue
+			}
+			if core.Fingerprint(c2) != want {
+				vio(r, "c05.srs", "ipa.NewIPASettings", fmt.Sprintf("NumCPU/GOMAXPROCS = %d", k), "bit-identical SRS, tables and weights as under the default CPU count (which are checked against the reference)", "different configuration")
+			}
+		}
+	}})
 	boundary16 := []uint64{1, 2, 3, 0x7ffe, 0x7fff, 0x8000, 0x8001, 0x8002, 0xfffe, 0xffff, 0x00ff, 0x0100, 0xff00, 0x1234, 0x1cfa, 0x1cfb}
 	for i := 0; i < 5; i++ {
 		for k := uint(0); k < 16; k++ {
 			i, k := i, k
-			fullSweep := ctx.Thorough() || i == 0 || i == 4
+			fullSweep := true
 			name := fmt.Sprintf("16-bit table point %d window %d", i, k)
 			if !fullSweep {
 				name += " (boundary digits)"
